@@ -479,9 +479,12 @@ class MpSerSuite(Suite):
             cases.append(Case("mpser t:f%08x" % b, kind="ser"))
         for b in mpack.BOUNDARY_F64 + gens.BOUND_F64:
             cases.append(Case("mpser t:d%016x" % b, kind="ser"))
+        for z in [0, 1, 2, 3, 4, 5, 7, 8, 9, 15, 16, 17, 31, 255, 256, 257] + ([65535, 65536] if tier == "thorough" else []):
+            for t in (("Bn", bytes([0x41]) * z), ("X", 5, bytes([0x42]) * z), ("A", [("X", 200, bytes([0x43]) * z), ("I", 7)])):
+                cases.append(Case("mpser t:" + show_tree(t), kind="ser", want=show_tree(gens.stored_tree(t))))
         for i in range(n):
             t = gens.gen_doc_term(rng, raw="mp")
-            cases.append(Case("mpser t:" + show_tree(t), kind="ser"))
+            cases.append(Case("mpser t:" + show_tree(t), kind="ser", want=show_tree(gens.stored_tree(t))))
         for t in ["t:[I1,U5]", "t:{61:S6869,62:[N,T]}", "t:S", "t:N", "t:f3fc00000", "t:[S00,d400921fb54442d18]", "t:U70000"]:
             for cap in range(0, 24):
                 cases.append(Case("mpbuf 8 %d %s" % (cap, t), kind="buf"))
@@ -503,6 +506,8 @@ class MpSerSuite(Suite):
         if f[-1] != "dest-ok":
             return ("mpser:" + f[-1], "destinations disagree: " + f[-1])
         stored = parse_tree(f[1])
+        if case.meta.get("want") and f[1] != case.meta["want"]:
+            return ("mpser:stored-differs", "document built from %s holds %s, expected %s" % (case.line[:80], f[1][:80], case.meta["want"][:80]))
         data = bytes.fromhex(f[2]) if f[2] != "-" else b""
         try:
             mv, pos = mpack.decode(data)
@@ -1768,3 +1773,267 @@ class CmpSuite(Suite):
 
     def feature(self, case, h):
         return case.line
+
+
+# ================================================================================================ C04/C05/C06/C14/C19: API histories
+import hist as H
+import random as _random
+
+GEOMETRIES = {
+    "default": {},
+    "tiny1": {"POOL_CAPACITY": 2, "INITIAL_POOL_COUNT": 1, "SLOT_ID_SIZE": 1},
+    "tiny2": {"POOL_CAPACITY": 3, "INITIAL_POOL_COUNT": 1, "SLOT_ID_SIZE": 2},
+    "id1": {"POOL_CAPACITY": 16, "INITIAL_POOL_COUNT": 4, "SLOT_ID_SIZE": 1},
+    "id1c10": {"POOL_CAPACITY": 10, "INITIAL_POOL_COUNT": 1, "SLOT_ID_SIZE": 1},
+    "id1i3": {"POOL_CAPACITY": 4, "INITIAL_POOL_COUNT": 3, "SLOT_ID_SIZE": 1},
+    "len1": {"POOL_CAPACITY": 128, "INITIAL_POOL_COUNT": 2, "SLOT_ID_SIZE": 2, "STRING_LENGTH_SIZE": 1},
+    "len4": {"POOL_CAPACITY": 256, "INITIAL_POOL_COUNT": 4, "SLOT_ID_SIZE": 4, "STRING_LENGTH_SIZE": 4},
+}
+
+
+def geo_of(cfg):
+    """(poolCap, initPools, idBytes, stringOverhead) of a harness configuration on this 64-bit target"""
+    cap = cfg.get("POOL_CAPACITY", 256)
+    init = cfg.get("INITIAL_POOL_COUNT", 4)
+    idb = cfg.get("SLOT_ID_SIZE", 4)
+    lenb = cfg.get("STRING_LENGTH_SIZE", 2)
+    # struct StringNode { StringNode* next; references_type references; length_type length; char data[1]; }  sizeForLength(0) = offsetof(data) + 1
+    off = 8 + idb
+    off = (off + lenb - 1) // lenb * lenb
+    off += lenb
+    return (cap, init, idb, off + 1)
+
+
+class HistSuite(Suite):
+    """C04: non-aliasing API histories; observations predicted by the plain ordered-tree machine (tools/hist.py) and by the slot-level Lean model"""
+    name = "hist"
+
+    def group_starts(self, cases):
+        return {i for i, c in enumerate(cases) if c.line == "reset"}
+
+    def histories(self, rng, tier):
+        nh = getattr(self, "nh", 60 if tier == "quick" else 3000)
+        nops = getattr(self, "nops", 60)
+        for _ in range(nh):
+            yield H.gen_history(rng, rng.choice([nops // 2, nops, nops * 2]), geo_of(self.cfg), strkind=getattr(self, "strkind", None))
+
+    def generate(self, rng, tier):
+        cases = []
+        for ops, exp in self.histories(rng, tier):
+            for o, e in zip(ops, exp):
+                cases.append(Case(o, exp=e))
+        return cases
+
+    def canon_h(self, case, h):
+        return canon_nan(h)
+
+    def canon_m(self, case, m):
+        return canon_nan(m)
+
+    def oracle(self, case, h):
+        o = Suite.oracle(self, case, h)
+        if o:
+            return (o[0], o[1] + " at '%s'" % case.line[:80])
+        if "geo-mismatch" in h:
+            return ("hist:geo-mismatch", "harness built with another geometry than the history expects")
+        if "ALLOCATOR-MISUSE" in h:
+            return ("hist:allocator-misuse", "a block was released twice or through the wrong allocator at '%s'" % case.line[:80])
+        if "NOT-NUL-TERMINATED" in h or "CSTR-MISMATCH" in h:
+            return ("hist:cstr", "as<const char*>() inconsistent at '%s': %s" % (case.line[:60], h[:100]))
+        body, _, log = h.partition("|")
+        op, _, out = body.partition(" ")
+        e = case.meta.get("exp")
+        if e is not None and out.strip() != e.strip():
+            kind = "observation" if op == "obs" else ("ledger" if op == "ledger" else "result")
+            return ("hist:%s" % kind, "after '%s' the library shows '%s', the ordered-tree model predicts '%s'" % (case.line[:80], out.strip()[:200], e.strip()[:200]))
+        if op in ("obs", "obsx", "hser", "ledger") and log.strip():
+            return ("hist:observer-allocates", "read-only operation '%s' called the allocator: %s" % (case.line[:60], log[:80]))
+        return None
+
+    def feature(self, case, h):
+        return (case.line, h[:60]) if case.line.split(" ")[0] not in ("reset", "geo", "obs") else None
+
+
+class FaultSuite(HistSuite):
+    """C05: the same histories with allocator failures injected (single failures at every early position, fail-from-k, random subsets)"""
+    name = "faults"
+
+    def generate(self, rng, tier):
+        import ajlib
+        cases = []
+        nh = getattr(self, "nh", 150 if tier == "quick" else 6000)
+        sess = H.ModelSession(ajlib.DRIVER)
+        try:
+            for _ in range(nh):
+                ops = H.gen_fault_history(rng, rng.choice([20, 40, 70]), geo_of(self.cfg), sess)
+                for o in ops:
+                    cases.append(Case(o, exp=None))
+        finally:
+            sess.close()
+        return cases
+
+    def oracle(self, case, h):
+        o = Suite.oracle(self, case, h)
+        if o:
+            return (o[0], o[1] + " at '%s' (under an allocation-failure schedule)" % case.line[:80])
+        if "ALLOCATOR-MISUSE" in h:
+            return ("faults:allocator-misuse", "a block was released twice or through the wrong allocator at '%s'" % case.line[:80])
+        body, _, log = h.partition("|")
+        op, _, out = body.partition(" ")
+        if op == "ledger" and out.strip() != "L0=0 L1=0 L2=0":
+            return ("faults:leak", "after clear() of all documents the allocators still hold blocks: " + out)
+        if op in ("obs", "obsx", "hser", "ledger") and log.strip():
+            return ("faults:observer-allocates", "read-only operation '%s' called the allocator" % case.line[:60])
+        return None
+
+    def post(self, cases, ho):
+        """failure is reported and stays local: an operation during which an allocation failed sets overflowed() of that document,
+        a set/add that failed returns false, and documents not touched by the operation are unchanged"""
+        out = []
+        last_obs = None
+        pending = None
+        for c, h in zip(cases, ho):
+            if is_crash(h):
+                last_obs = None
+                pending = None
+                continue
+            body, _, log = h.partition("|")
+            op, _, res = body.partition(" ")
+            if op == "reset":
+                last_obs = None
+                pending = None
+                continue
+            if op == "obs":
+                docs = [x.strip() for x in res.split(";")[:3]]
+                if pending is not None and last_obs is not None:
+                    pc, plog, pres = pending
+                    failed_allocs = {int(m) for m in re.findall(r"a(\d):[AR]\d+!", plog)}
+                    for d in failed_allocs:
+                        if " o=1" not in docs[d] and pc.line.split(" ")[0] not in ("cleardoc", "copydoc", "swapdoc"):
+                            out.append(("faults:not-reported", "an allocation of document %d failed during '%s' but overflowed() is false afterwards" % (d, pc.line[:60]), pc))
+                    touched = {int(m) for m in re.findall(r"a(\d):", plog)}
+                    pop = pc.line.split(" ")
+                    if pop[0] in ("copydoc", "swapdoc"):
+                        touched |= {int(pop[1]), int(pop[2])}
+                    if pop[0] == "cleardoc":
+                        touched.add(int(pop[1]))
+                    if pop[0] not in ("root", "failat", "failfrom", "nofail") and len(touched) <= 1 and failed_allocs:
+                        for d in range(3):
+                            # a document whose allocator saw no call and that is not an operand cannot have changed
+                            if d not in touched and self.strip_o(docs[d]) != self.strip_o(last_obs[d]) and not self.may_target(pc, d):
+                                out.append(("faults:collateral", "document %d changed during '%s' although the failing operation does not target it" % (d, pc.line[:60]), pc))
+                last_obs = docs
+                pending = None
+                continue
+            if op in ("obsx", "ledger", "hser", "geo", "failat", "failfrom", "nofail"):
+                continue
+            pending = (c, log, res)
+        return out
+
+    @staticmethod
+    def strip_o(s):
+        return re.sub(r" o=\d", "", s)
+
+    @staticmethod
+    def may_target(case, d):
+        return True
+
+
+class StringKindSuite(HistSuite):
+    """C14: the same history executed with every string source kind must give the same observations"""
+    name = "strkind"
+
+    def generate(self, rng, tier):
+        cases = []
+        nh = getattr(self, "nh", 25 if tier == "quick" else 800)
+        for _ in range(nh):
+            seed = rng.getrandbits(40)
+            nul_ok = rng.random() < 0.4
+            # zero-terminated kinds (char*, linked const char*) cannot carry a NUL: they take part only in NUL-free histories
+            kinds = ["sc", "sv", "sj"] if nul_ok else ["sc", "sv", "sp", "sj", "sjl"]
+            for k in kinds:
+                r2 = _random.Random(seed)
+                ops, exp = H.gen_history(r2, 50, geo_of(self.cfg), strkind=k, nul_ok=nul_ok)
+                for o, e in zip(ops, exp):
+                    cases.append(Case(o, exp=e, kind=k, seed=seed))
+        return cases
+
+    def post(self, cases, ho):
+        out = []
+        by = {}
+        # group outputs by (seed, position)
+        pos = {}
+        for c, h in zip(cases, ho):
+            if is_crash(h) or "seed" not in c.meta:
+                continue
+            key = (c.meta["seed"], c.meta["kind"])
+            pos[key] = pos.get(key, 0) + 1
+            k2 = (c.meta["seed"], pos[key])
+            body = h.partition("|")[0]
+            if c.line.split(" ")[0] not in ("obs", "obsx"):
+                continue
+            if k2 in by and by[k2][0] != body:
+                out.append(("strkind:observable", "string source kind %s vs %s changes an observation at '%s': '%s' vs '%s'" % (by[k2][1], c.meta["kind"], c.line[:40], by[k2][0][:120], body[:120]), c))
+            by.setdefault(k2, (body, c.meta["kind"]))
+        return out
+
+
+class LimitSuite(HistSuite):
+    """C19: histories that sit at, one below and one above the slot limit (1-byte slot ids: 255 slots)"""
+    name = "limit"
+
+    def generate(self, rng, tier):
+        geo = geo_of(self.cfg)
+        cases = []
+        limit = 2 ** (8 * geo[2]) - 1
+        if limit > 70000:
+            return cases
+        for extra in (0, 1, 5):
+            ops = ["reset", "geo %d %d %d %d" % geo[:4], "root 0 0", "toarr 1 0"]
+            n = limit + extra
+            for i in range(n):
+                ops.append("add 1 i %d" % i)
+                if i % 64 == 0 or i >= limit - 3:
+                    ops.append("obs 0 1")
+            ops += ["obs 0 1", "remi 1 0", "remi 1 0", "obs 0 1", "add 1 i 777", "add 1 sc 6162", "obs 0 1", "cleardoc 0", "obs 0", "root 0 0", "add 0 i 1", "obs 0", "cleardoc 0", "ledger"]
+            for o in ops:
+                cases.append(Case(o, exp=None, limit=limit))
+        return cases
+
+    def oracle(self, case, h):
+        o = Suite.oracle(self, case, h)
+        if o:
+            return (o[0], o[1] + " at '%s' near the slot limit" % case.line[:60])
+        body, _, log = h.partition("|")
+        op, _, out = body.partition(" ")
+        if op == "ledger" and out.strip() != "L0=0 L1=0 L2=0":
+            return ("limit:leak", "blocks left after clear(): " + out)
+        return None
+
+    def post(self, cases, ho):
+        """add() reports success iff the element is really there: size() must equal the number of successful add() calls"""
+        out = []
+        ok = 0
+        for c, h in zip(cases, ho):
+            if is_crash(h):
+                ok = 0
+                continue
+            body = h.partition("|")[0]
+            op, _, res = body.partition(" ")
+            if op == "reset":
+                ok = 0
+            elif op == "add" and c.line.startswith("add 1 "):
+                ok += 1 if res.strip() == "1" else 0
+            elif op == "remi":
+                ok -= 1
+            elif op == "cleardoc":
+                ok = -10 ** 9
+            elif op == "obs" and ok >= 0:
+                m = re.search(r"r1=\[.*?\] z=(\d+)", body)
+                if m and int(m.group(1)) != ok:
+                    out.append(("limit:size-mismatch", "%d add() calls reported success but size() is %s" % (ok, m.group(1)), c))
+                    ok = -10 ** 9
+                if ok > c.meta["limit"]:
+                    out.append(("limit:exceeded", "more than %d slots handed out" % c.meta["limit"], c))
+                    ok = -10 ** 9
+        return out
